@@ -46,50 +46,40 @@ func succListObligations(c *Ctx, rule, name string) string {
 		fn := c.Func("spec/chord", "", name)
 		ok, det, sel := dedupLoop(fn, 1)
 		c.Ob(rule, name+"#loop-obligations", fn.Decl.Pos(), ok, det)
-		// initial list [immediate], seen[K(immediate)] = true
-		okInit, okMark := false, false
-		keyText := ""
-		ast.Inspect(fn.Body, func(n ast.Node) bool {
+		// initial list [immediate]; K(immediate) is put into the seen set before the loop
+		okInit := false
+		for _, n := range shallowNodes(fn.Body) {
+			var rhs []ast.Expr
 			switch x := n.(type) {
 			case *ast.AssignStmt:
-				if len(x.Lhs) == 1 && len(x.Rhs) == 1 {
-					if cl, ok := x.Rhs[0].(*ast.CompositeLit); ok && len(cl.Elts) == 1 && fn.Prov(cl.Elts[0]) == "param#0" {
-						okInit = true
-					}
-					if ix, ok := x.Lhs[0].(*ast.IndexExpr); ok {
-						if v, _ := fn.ConstVal(x.Rhs[0]); v == "true" && strings.HasPrefix(fn.Prov(ix.Index), "param#0.") {
-							okMark = true
-							keyText = strings.TrimPrefix(fn.Prov(ix.Index), "param#0.")
-						}
-					}
+				rhs = x.Rhs
+			case *ast.ValueSpec:
+				rhs = x.Values
+			}
+			for _, r := range rhs {
+				if cl, ok := ast.Unparen(r).(*ast.CompositeLit); ok && len(cl.Elts) == 1 && fn.Prov(cl.Elts[0]) == "param#0" {
+					okInit = true
 				}
 			}
-			return true
-		})
+		}
 		c.Ob(rule, name+"#starts-with-immediate", fn.Decl.Pos(), okInit, "the result starts as [immediate]")
 		// the key function applied to the immediate node is the one applied to the elements
 		var rs *ast.RangeStmt
-		ast.Inspect(fn.Body, func(n ast.Node) bool {
+		for _, n := range shallowNodes(fn.Body) {
 			if r, ok := n.(*ast.RangeStmt); ok && rs == nil {
 				rs = r
 			}
-			return true
-		})
-		elemKey := ""
-		if rs != nil {
-			ast.Inspect(rs.Body, func(n ast.Node) bool {
-				if as, ok := n.(*ast.AssignStmt); ok && len(as.Lhs) == 1 {
-					if ix, ok := as.Lhs[0].(*ast.IndexExpr); ok {
-						pv := fn.Prov(ix.Index)
-						if i := strings.Index(pv, "#1."); i >= 0 {
-							elemKey = pv[i+3:]
-						}
-					}
-				}
-				return true
-			})
 		}
-		c.Ob(rule, name+"#immediate-marked-with-same-key", fn.Decl.Pos(), okMark && keyText != "" && keyText == elemKey, fmt.Sprintf("seen[K(immediate)] is set with the same key function as the elements (immediate: %s, elements: %s)", keyText, elemKey))
+		immKey := ""
+		for _, in := range fn.seenInserts(fn.Body) {
+			if rs != nil && rs.Pos() <= in.at.Pos() && in.at.End() <= rs.End() {
+				continue
+			}
+			if strings.HasPrefix(in.key, "param#0.") {
+				immKey = strings.TrimPrefix(in.key, "param#0.")
+			}
+		}
+		c.Ob(rule, name+"#immediate-marked-with-same-key", fn.Decl.Pos(), immKey != "" && immKey == sel, fmt.Sprintf("K(immediate) is in the seen set before the loop, with the same key function as the elements (immediate: %s, elements: %s)", immKey, sel))
 		// bound test dominates the append and breaks
 		if rs != nil {
 			var ap *ast.CallExpr
@@ -138,7 +128,8 @@ func succListObligations(c *Ctx, rule, name string) string {
 		for _, r := range fn.Returns() {
 			c.Ob(rule, name+"#returns-the-list", r.Pos(), strings.Contains(fn.Prov(r.Results[0]), "lit:[]VNode"), "the built list is returned; found "+fn.Prov(r.Results[0]))
 		}
-		return sel
+		// the selector the siblings are compared by: the last method of the key chain
+		return lastSelector(sel)
 	}
 }
 
